@@ -34,14 +34,16 @@ Outcomes(sw, A) ==
   IF ~sw.ok THEN {"unstable"}
   ELSE (IF Conv(sw, A, 1) THEN {"conv"} ELSE {}) \cup (IF ~Conv(sw, A, -1) THEN {"not"} ELSE {})
 
-\* is there a choice of outcomes under which the abstract machine performs exactly these sweeps
-\* and ends in control state `final` ?
-RECURSIVE Explains(_, _, _, _)
-Explains(sws, A, j, final) ==
-  IF j > Len(sws) THEN FALSE
-  ELSE \E o \in Outcomes(sws[j], A) :
-          LET p == Sol!PcStep(j - 1, o, A.maxiter) IN
-          IF j = Len(sws) THEN p = final ELSE (p = "run" /\ Explains(sws, A, j + 1, final))
+\* is there a choice of outcomes under which the abstract machine performs exactly these sweeps and ends in
+\* control state `final` ?  Only the outcome "not" lets the machine go on, so every sweep but the last must admit
+\* "not" (and leave the machine running), and the last one must admit an outcome that leads to `final`.
+\* (Stated without recursion: TLC evaluates a recursion of depth n over the sweeps in quadratic time, and a run
+\* that does not converge has maxiter + 1 = 10 001 sweeps.)
+Explains(sws, A, j0, final) ==
+  LET n == Len(sws) IN
+  /\ n >= 1
+  /\ \A j \in 1..(n - 1) : "not" \in Outcomes(sws[j], A) /\ Sol!PcStep(j - 1, "not", A.maxiter) = "run"
+  /\ \E o \in Outcomes(sws[n], A) : Sol!PcStep(n - 1, o, A.maxiter) = final
 
 Final(c) == IF c.end.kind = "return" THEN "returned"
             ELSE IF c.end.exc = "RuntimeError" THEN "noconv"
